@@ -265,9 +265,7 @@ def cycle_items(eff: Effects, repo):
                 param, key = meas["param"], meas["key"]
 
                 def pred(test, key=key, param=param):
-                    return any(isinstance(t, ast.Compare) and len(t.ops) == 1 and isinstance(t.ops[0], ast.In)
-                               and ast.unparse(t.left) == key and ast.unparse(t.comparators[0]) == param
-                               for t in ast.walk(test))
+                    return implied_membership(test, key, param)
                 guard = term.dominating_guard(fn, node, pred) or guarded_inline(fn, node, key, param)
                 passed = None
                 for kw in node.keywords:
@@ -352,13 +350,34 @@ def cycle_items(eff: Effects, repo):
     return items, comps
 
 
+def implied_membership(test, key, param):
+    """`key in param` makes the test true: the test is that comparison or a disjunction with it as a disjunct (a
+    conjunction such as `key in param and not only_list` is weaker than the guard the measure needs)"""
+    if isinstance(test, ast.Compare):
+        return (len(test.ops) == 1 and isinstance(test.ops[0], ast.In) and ast.unparse(test.left) == key
+                and ast.unparse(test.comparators[0]) == param)
+    if isinstance(test, ast.BoolOp) and isinstance(test.op, ast.Or):
+        return any(implied_membership(v, key, param) for v in test.values)
+    return False
+
+
 def guarded_inline(fn, call, key, param):
     """`if key in param: ...skip... elif ...: <call>`: the call sits in the orelse of the membership test."""
     for n in ast.walk(fn):
         if isinstance(n, ast.If):
             t = n.test
-            hit = any(isinstance(x, ast.Compare) and len(x.ops) == 1 and isinstance(x.ops[0], ast.In)
-                      and ast.unparse(x.left) == key and ast.unparse(x.comparators[0]) == param for x in ast.walk(t))
+            hit = implied_membership(t, key, param)
+            if not hit and isinstance(t, ast.BoolOp) and isinstance(t.op, ast.And) \
+                    and any(implied_membership(v, key, param) for v in t.values):
+                # `if A and key in param: skip  elif A [and ...]: <call>`: in the second branch A holds, so the first test
+                # failed because the key is not in the path
+                others = {ast.unparse(v) for v in t.values if not implied_membership(v, key, param)}
+                nxt = n.orelse[0] if len(n.orelse) == 1 and isinstance(n.orelse[0], ast.If) else None
+                if nxt is not None and any(c is call for s in nxt.body for c in ast.walk(s)):
+                    conj = {ast.unparse(v) for v in nxt.test.values} if isinstance(nxt.test, ast.BoolOp) and isinstance(nxt.test.op, ast.And) \
+                        else {ast.unparse(nxt.test)}
+                    if others <= conj:
+                        return True
             if hit and any(c is call for s in n.orelse for c in ast.walk(s)):
                 return True
     return False
@@ -433,6 +452,12 @@ def cycle_catalogue():
         progs[f"use_cycle_{n}"] = {"a.f90": "".join(
             f"module {names[i]}\n  use {names[(i + 1) % n]}\n  integer :: v{i}\nend module {names[i]}\n" for i in range(n))
             + "program p\n  use m0\n  v0 = 1\nend program p\n"}
+        # the cycle entered through an ONLY list, with the USE statements inside it permuting names (a rename that is
+        # rewritten on every lap must not keep the walk going)
+        for tag, ren in (("swap", "p => q, q => p"), ("rot3", "p => q, q => r, r => p"), ("only_swap", "only: p => q, q => p")):
+            progs[f"use_cycle_{n}_only_entry_{tag}"] = {"a.f90": "".join(
+                f"module {names[i]}\n  use {names[(i + 1) % n]}, {ren}\n  integer :: v{i}\nend module {names[i]}\n" for i in range(n))
+                + "program p\n  use m0, only: p, q\n  integer :: loc\n  loc = p + q\nend program p\n"}
         progs[f"extends_cycle_{n}"] = {"a.f90": "module m\n" + "".join(
             f"  type, extends(t{(i + 1) % n}) :: t{i}\n    integer :: c{i}\n  contains\n    procedure :: f => f{i}\n  end type t{i}\n"
             for i in range(n)) + "  type(t0) :: obj\ncontains\n" + "".join(
